@@ -29,6 +29,10 @@ def classes(g1_json):
         'bad_args': call('calculate_report', {}),
         'bad_dsl': call('calculate_report', {'transactions': '2020-13-45 FROB ??? \n'}),
         'bad_json': call('parse_transactions', {'transactions': '[{"date": "2020-01-01", "ticker": "é' + 'x' * 230 + '"'}),
+        # a long offending line full of multi-byte characters, at both byte parities (any fixed-offset truncation cuts one)
+        'bad_json_wide_a': call('calculate_report', {'transactions': '[{"date": "2020-01-01", "ticker": "' + 'é' * 400 + '", "action": "BUY", "amount": }]'}),
+        'bad_json_wide_b': call('convert_to_dsl', {'transactions': '[{"date":  "2020-01-01", "ticker": "' + '€' * 300 + 'é' * 100 + '", "action": "BUY", "amount": }]'}),
+        'bad_json_wide_c': call('parse_transactions', {'transactions': '[{"date":   "2020-01-01", "ticker": "' + 'é€' * 200 + '", "action": "BUY", "amount": }]'}),
         'uncovered': call('calculate_report', {'transactions': UNCOVERED}),
         'no_exemption': call('calculate_report', {'transactions': NOEXEMPT}),
         'big_year': call('calculate_report', {'transactions': G1, 'year': 2147483647}),
@@ -245,7 +249,7 @@ def mcp_check(tier, seed):
         expect['calc_json'] = expect['calc_all']
         expect['calc_year'] = {'kind': 'result', 'digest': cli_digest(['report', '--format', 'json', '--year', '2020', 'g1.cgt'], core)}
         expect['parse'] = {'kind': 'result', 'digest': cli_digest(['parse', 'g1.cgt'], lambda j: j)}
-        for n in ('bad_args', 'bad_dsl', 'bad_json', 'uncovered', 'no_exemption', 'big_year', 'explain_missing', 'unknown_tool', 'res_bad'):
+        for n in ('bad_args', 'bad_dsl', 'bad_json', 'bad_json_wide_a', 'bad_json_wide_b', 'bad_json_wide_c', 'uncovered', 'no_exemption', 'big_year', 'explain_missing', 'unknown_tool', 'res_bad'):
             expect[n] = {'kind': 'error', 'digest': ''}
         solo = [n for n in names if n not in expect] + ['initialize']
         with ThreadPoolExecutor(max_workers=8) as ex:
